@@ -42,6 +42,7 @@ type HarnessSpec struct {
 	Paths    int
 	Timeout  int
 	MaxAlloc int
+	Wall     int
 	Merge    []string
 	NoMerge  bool
 	Bounds   string
@@ -153,6 +154,8 @@ func loadProgram(repo, verif string) (*Program, error) {
 							h.Paths, _ = strconv.Atoi(arg)
 						case "timeout":
 							h.Timeout, _ = strconv.Atoi(arg)
+						case "wall":
+							h.Wall, _ = strconv.Atoi(arg)
 						case "maxalloc":
 							h.MaxAlloc, _ = strconv.Atoi(arg)
 						case "merge":
@@ -230,6 +233,7 @@ type HarnessResult struct {
 	SolverErrors  []string    `json:"solver_errors,omitempty"`
 	Unwind        int         `json:"unwind"`
 	Witnesses     []Witness   `json:"-"`
+	done          bool
 	MapRanges     int         `json:"map_ranges"`
 	SharedWrites  []string    `json:"shared_writes,omitempty"`
 }
@@ -271,7 +275,15 @@ func newExec(P *Program, h *HarnessSpec, opts RunOpts) (*Exec, error) {
 		tier: opts.Tier, harness: h.Name, initDone: map[*ssa.Package]bool{}, initAllow: map[string]bool{},
 		vioSeen: map[string]bool{}, reach: map[string]int{}, reachModels: map[string][]InputVal{},
 		funcs: map[string]bool{}, cuts: map[string]int{}, assumes: map[string]bool{}, maxViolations: 8,
-		maxAlloc: 1 << 17,
+		maxAlloc: 1 << 17, smallBuf: 24,
+	}
+	ex.started = time.Now()
+	ex.wallBudget = 15 * time.Minute
+	if opts.Tier > 0 {
+		ex.wallBudget = 90 * time.Minute
+	}
+	if h.Wall > 0 {
+		ex.wallBudget = time.Duration(h.Wall) * time.Second
 	}
 	if h.Unwind > 0 {
 		ex.unwind = h.Unwind
@@ -321,8 +333,11 @@ func runHarness(P *Program, h *HarnessSpec, opts RunOpts) (res *HarnessResult) {
 			fmt.Fprintf(os.Stderr, "[%s] slow query %.1fs %v (%d bytes new) at %s; paths=%d q=%d terms=%d\n", h.Name, sec, r, n, where, ex.paths, ex.sol.Queries, ex.tt.next)
 		}
 		go func() {
-			for {
+			for !res.done {
 				time.Sleep(10 * time.Second)
+				if res.done {
+					return
+				}
 				where := ""
 				if c := ex.cur; c != nil {
 					where = ex.pos(c)
@@ -359,6 +374,7 @@ func runHarness(P *Program, h *HarnessSpec, opts RunOpts) (res *HarnessResult) {
 		res.MapRanges = ex.mapRanges
 		res.SharedWrites = dedup(ex.sharedWrites)
 		res.WallS = time.Since(start).Seconds()
+		res.done = true
 	}
 	defer func() {
 		if r := recover(); r != nil {
@@ -479,7 +495,7 @@ func (ex *Exec) witnessFor(st *State) (Witness, bool) {
 		vi := 0
 		for _, inp := range st.inputs {
 			switch inp.kind {
-			case "choice":
+			case "choice", "stubchoice":
 				vi++
 			case "bytes":
 				b := in[vi].B
